@@ -285,7 +285,8 @@ class InputValidation:
                 continue
 
             if "one_of" in validations:
-                one_of_group = validations.pop("one_of")
+                one_of_group = validations["one_of"]
+                validations = {k: v for k, v in validations.items() if k != "one_of"}
                 val = {param: data[param] is not None}
                 if one_of_group in one_of_validations:
                     one_of_validations[one_of_group].update(val)
